@@ -84,3 +84,19 @@ def spec_hash(*dirs):
                 h.update(f.encode())
                 h.update(open(os.path.join(p, f), "rb").read())
     return h.hexdigest()[:16]
+
+
+def apalache(spec_dir, module, args, timeout=900, tag=None):
+    """apalache-mc check <args> <module>.tla in /verif/specs/<spec_dir>; returns (exit code text, output).  Used for inductive
+    invariants of small integer models (unbounded proofs: Init => IndInv, IndInv /\\ Next => IndInv')."""
+    d = os.path.join(VERIF, "specs", spec_dir)
+    out = os.path.join(WORK, "apalache", tag or f"{module}_{os.getpid()}_{int(time.time()*1000)%100000000}")
+    shutil.rmtree(out, ignore_errors=True)
+    os.makedirs(out, exist_ok=True)
+    e = dict(os.environ)
+    e.pop("JAVA_TOOL_OPTIONS", None)
+    p = subprocess.run(["apalache-mc", "check", f"--out-dir={out}"] + list(args) + [module + ".tla"], cwd=d, env=e, stdout=subprocess.PIPE,
+                       stderr=subprocess.STDOUT, text=True, timeout=timeout)
+    shutil.rmtree(out, ignore_errors=True)
+    m = re.search(r"EXITCODE: (\w+)", p.stdout)
+    return (m.group(1) if m else "NONE"), p.stdout
